@@ -254,21 +254,37 @@ structure LineResult where
   dbd : Bool
   deriving Repr, Inhabited
 
+/-- First line not yet emitted, as encoded in the paragraph's `skip_stack`. -/
+def skipLine : Option Resume → Nat
+  | some (.line k) => k
+  | _ => 0
+
+/-- `if adjoining_margins: position_y += collapse_margin(adjoining_margins)` -/
+def lineStart (adj : List Rat) (posY : Rat) : Rat :=
+  if adj.isEmpty then posY else posY + collapseMargin adj
+
+/-- The line loop of `_linebox_layout`, started at the resume position. -/
+def lineboxLoop (c : Ctx) (st : PStyle) (b : BoxSt) (n : Nat) (lineH : Rat) (pageIsEmpty : Bool)
+    (adj : List Rat) (bs : Rat) (posY : Rat) (skip : Option Resume) (dbd : Bool) : LineOutcome :=
+  lineLoop c st b n lineH pageIsEmpty bs (n - skipLine skip) (skipLine skip) (lineStart adj posY)
+    { lines := [], posY := lineStart adj posY, skip := skip, mt := b.mt, dbd := dbd }
+
+/-- `if new_children: resume_at = {index: new_children[-1].resume_at}` -/
+def lastLineResume (n : Nat) (lines : List (Nat × Rat)) (resume : Option Resume) : Option Resume :=
+  match lines.getLast? with
+  | some (i, _) => some (Resume.node 0 (lineResume n i))
+  | none => resume
+
 /-- `_linebox_layout` for the single line box of a paragraph (index 0). -/
 def lineboxLayout (c : Ctx) (st : PStyle) (b : BoxSt) (n : Nat) (lineH : Rat) (pageIsEmpty : Bool)
     (adj : List Rat) (bs : Rat) (posY : Rat) (skip : Option Resume) (dbd : Bool) : LineResult :=
-  let posY := if adj.isEmpty then posY else posY + collapseMargin adj
-  let k := match skip with | some (.line k) => k | _ => 0
-  let s0 : LineLoop := { lines := [], posY := posY, skip := skip, mt := b.mt, dbd := dbd }
-  let out := lineLoop c st b n lineH pageIsEmpty bs (n - k) k posY s0
-  let (abort, stop, resume, s) := match out with
-    | .done s => (false, false, (none : Option Resume), s)
-    | .broke a st' r s => (a, st', r, s)
-  -- `if new_children: resume_at = {index: new_children[-1].resume_at}`
-  let resume := match s.lines.getLast? with
-    | some (i, _) => some (Resume.node 0 (lineResume n i))
-    | none => resume
-  { abort := abort, stop := stop, resume := resume, posY := s.posY, lines := s.lines, mt := s.mt, dbd := s.dbd }
+  match lineboxLoop c st b n lineH pageIsEmpty adj bs posY skip dbd with
+  | .done s =>
+    { abort := false, stop := false, resume := lastLineResume n s.lines none, posY := s.posY,
+      lines := s.lines, mt := s.mt, dbd := s.dbd }
+  | .broke a st' r s =>
+    { abort := a, stop := st', resume := lastLineResume n s.lines r, posY := s.posY,
+      lines := s.lines, mt := s.mt, dbd := s.dbd }
 
 /-! ### `find_earlier_page_break` -/
 
@@ -419,17 +435,26 @@ def finishContainer (c : Ctx) (st : PStyle) (b : BoxSt) (isStart : Bool) (pageIs
     { frag := some (mk (geoOf nb h)), resume := resume, nextPage := np,
       adj := if curIsL then .alias else .fresh cur, collapsingThrough := through, adjL := adjL }
 
-mutual
+/-- The beginning of `block_level_layout` / `block_container_layout`, before the children loop:
+margin truncation after an unforced break, decoration removal on resumed boxes, `bottom_space`
+enlarged for cloned decorations, the box's top margin appended to the shared list, initial
+position. -/
+structure Prep where
+  b : BoxSt
+  bs : Rat
+  adjL : List Rat
+  cwc : Bool               -- collapsing_with_children
+  cur : List Rat
+  curIsL : Bool
+  posY : Rat
+  dbd : Bool               -- draw_bottom_decoration
+  isStart : Bool
+  deriving Inhabited
 
-/-- `block_level_layout` (+ `block_box_layout`, `block_container_layout`). `y` is `box.position_y` as set
-by the parent, `cbIsRoot` is `containing_block.is_for_root_element`, `adjL` the content of the passed
-`adjoining_margins` object. -/
-def layoutBox (c : Ctx) (box : PBox) (idx : Nat) (y : Rat) (bs : Rat) (skip : Option Resume) (cbIsRoot : Bool)
-    (pageIsEmpty : Bool) (adjL : List Rat) : LayoutResult :=
-  let st := box.st
+def prepare (c : Ctx) (st : PStyle) (y : Rat) (bs : Rat) (skip : Option Resume) (cbIsRoot : Bool)
+    (pageIsEmpty : Bool) (adjL : List Rat) : Prep :=
   -- resolve_percentages + margin truncation after an unforced break
   let mt0 := if c.currentPage > 1 && pageIsEmpty && (cbIsRoot || !adjL.isEmpty) && !c.forcedBreak then 0 else st.mt
-  -- block_container_layout
   let isStart := skip.isNone
   let b : BoxSt := { y := y, mt := mt0, mb := st.mb, pt := st.pt, pb := st.pb, bt := st.bt, bb := st.bb }
   let b := if !st.clone && !isStart then { b with mt := 0, pt := 0, bt := 0 } else b
@@ -437,123 +462,170 @@ def layoutBox (c : Ctx) (box : PBox) (idx : Nat) (y : Rat) (bs : Rat) (skip : Op
   let bs := if dbd then bs + (b.pb + b.bb + b.mb) else bs
   let adjL := adjL ++ [b.mt]
   let cwc := !(b.bt ≠ 0 || b.pt ≠ 0 || st.isRoot)
-  let (b, cur, curIsL, posY) :=
-    if cwc then (b, adjL, true, b.y)
+  if cwc then
+    { b := b, bs := bs, adjL := adjL, cwc := true, cur := adjL, curIsL := true, posY := b.y, dbd := dbd,
+      isStart := isStart }
+  else
+    let b' := { b with y := b.y + collapseMargin adjL - b.mt }
+    { b := b', bs := bs, adjL := adjL, cwc := false, cur := [], curIsL := false,
+      posY := b'.y + b'.mt + b'.bt + b'.pt, dbd := dbd, isStart := isStart }
+
+/-- "Box height is fixed and it doesn't overflow page, forget overflowing children." -/
+def forgetIfFixed (st : PStyle) (b : BoxSt) (posY : Rat) (resume : Option Resume) : Option Resume :=
+  match st.height with
+  | some h => if overflows (b.y + (h + b.pt + b.pb + b.bt + b.bb)) posY then none else resume
+  | none => resume
+
+def abortResult (page : Option String) (adjL : List Rat) : LayoutResult :=
+  { frag := none, resume := none, nextPage := { brk := none, page := page }, adj := .fresh [],
+    collapsingThrough := false, adjL := adjL }
+
+/-- Paragraph container, after `_linebox_layout` returned `r`. -/
+def finishPara (c : Ctx) (st : PStyle) (p : Prep) (pageIsEmpty : Bool) (id idx n : Nat) (r : LineResult)
+    : LayoutResult :=
+  let b := { p.b with mt := r.mt }
+  let dbd := p.dbd || r.resume.isNone
+  if r.abort then abortResult (some st.page) p.adjL
+  else
+    let resume : Option Resume := if r.stop then forgetIfFixed st b r.posY r.resume else none
+    finishContainer c st b p.isStart pageIsEmpty p.bs p.cwc dbd resume r.posY p.adjL [] false
+      { brk := none, page := none } (!r.lines.isEmpty) st.page
+      (fun g => .para id idx st n g r.lines)
+
+def pageEndOf (st : PStyle) (kids : List Frag) : String :=
+  let e := fragPageEndLast kids; if e = "" then st.page else e
+
+/-- Block container, after the children loop returned `out`. -/
+def finishBlock (c : Ctx) (st : PStyle) (p : Prep) (pageIsEmpty : Bool) (id idx : Nat) (out : KidsOutcome)
+    : LayoutResult :=
+  match out with
+  | .aborted page s => abortResult (some page) s.adjL
+  | .stopped resume s =>
+    finishContainer c st p.b p.isStart pageIsEmpty p.bs p.cwc p.dbd (forgetIfFixed st p.b s.posY resume)
+      s.posY s.adjL [] false s.nextPage (!s.newChildren.isEmpty) (pageEndOf st s.newChildren)
+      (fun g => .block id idx st g s.newChildren)
+  | .finished s =>
+    finishContainer c st p.b p.isStart pageIsEmpty p.bs p.cwc p.dbd none s.posY s.adjL s.cur s.curIsL s.nextPage
+      (!s.newChildren.isEmpty) (pageEndOf st s.newChildren)
+      (fun g => .block id idx st g s.newChildren)
+
+/-- `_in_flow_layout`, part 1: the break between the last laid-out child and `child`.
+Returns the resolved break value and whether a new page is forced here. -/
+def meetBreak (s : KidsLoop) (child : PBox) : Brk × Bool :=
+  match s.newChildren.getLast? with
+  | none => (.auto, false)
+  | some l =>
+    let pb := breakBetween l child
+    let before := fragPageEnd l
+    let after := boxPageStart child
+    let named := before ≠ after && after ≠ ""
+    (pb, named || forcesPage pb)
+
+/-- What `_in_flow_layout` does with the result of the first `block_level_layout(child)`. -/
+inductive FirstPass where
+  | keep (frag : Option Frag) (posY : Rat)     -- final child (or none), new `position_y`
+  | redo (bs' : Rat)                           -- border/padding overflows: lay out again
+  deriving Inhabited
+
+def firstPass (c : Ctx) (bs : Rat) (pienc : Bool) (posY : Rat) (r : LayoutResult) : FirstPass :=
+  match r.frag with
+  | none => .keep none posY
+  | some f =>
+    if r.collapsingThrough then .keep (some f) posY
     else
-      let b' := { b with y := b.y + collapseMargin adjL - b.mt }
-      (b', ([] : List Rat), false, b'.y + b'.mt + b'.bt + b'.pt)
+      let g := f.geo
+      let canBreak := !pienc
+      if canBreak && c.overflowsPage bs (g.contentBoxY + g.h) then .keep none posY
+      else if canBreak && c.overflowsPage bs (g.borderBoxY + g.borderHeight) then .redo (bs + (g.pb + g.bb))
+      else .keep (some f) (g.borderBoxY + g.borderHeight)
+
+/-- `adjoining_margins = next_adjoining_margins; if new_child: append(new_child.margin_bottom)`;
+only when the *first* returned child was not None (`hadFrag`). -/
+def KidsLoop.adoptAdj (s : KidsLoop) (hadFrag : Bool) (adj : AdjOut) (frag : Option Frag) : KidsLoop :=
+  if !hadFrag then s
+  else
+    let s := match adj with
+      | .alias => s
+      | .fresh l => s.setCur l false
+    match frag with
+    | some f => s.appendCur f.geo.mb
+    | none => s
+
+/-- The end of `_in_flow_layout`: nothing fits → earlier break / abort / stop; else append. `none` = continue. -/
+def concludeKid (index : Nat) (pageIsEmpty : Bool) (pb : Brk) (child : PBox) (s : KidsLoop)
+    (frag : Option Frag) (resume : Option Resume) : Option KidsOutcome × KidsLoop :=
+  match frag with
+  | none =>
+    let earlier := if avoidsPage pb then findEarlierList s.newChildren else none
+    match earlier with
+    | some (kept, r') => (some (.stopped (some r') { s with newChildren := kept }), s)
+    | none =>
+      if avoidsPage pb && !pageIsEmpty then (some (.aborted (boxPageStart child) s), s)
+      else if !s.newChildren.isEmpty then (some (.stopped (some (.node index none)) s), s)
+      else (some (.aborted (boxPageStart child) s), s)
+  | some f =>
+    let s := { s with newChildren := s.newChildren ++ [f.withIdx index] }
+    match resume with
+    | some r' => (some (.stopped (some (.node index (some r'))) s), s)
+    | none => (none, s)
+
+mutual
+
+/-- `block_level_layout` (+ `block_box_layout`, `block_container_layout`). `y` is `box.position_y` as set
+by the parent, `cbIsRoot` is `containing_block.is_for_root_element`, `adjL` the content of the passed
+`adjoining_margins` object. -/
+def layoutBox (c : Ctx) (box : PBox) (idx : Nat) (y : Rat) (bs : Rat) (skip : Option Resume) (cbIsRoot : Bool)
+    (pageIsEmpty : Bool) (adjL : List Rat) : LayoutResult :=
   match box with
-  | .para id n lineH _ =>
+  | .para id n lineH st =>
+    let p := prepare c st y bs skip cbIsRoot pageIsEmpty adjL
     let lineSkip : Option Resume := match skip with | some (.node _ sub) => sub | _ => none
-    let r := lineboxLayout c st b n lineH pageIsEmpty cur bs posY lineSkip dbd
-    let b := { b with mt := r.mt }
-    let dbd := dbd || r.resume.isNone
-    if r.abort then
-      { frag := none, resume := none, nextPage := { brk := none, page := some st.page }, adj := .fresh [],
-        collapsingThrough := false, adjL := adjL }
-    else
-      let resume : Option Resume :=
-        if r.stop then
-          match st.height with
-          | some h => if overflows (b.y + (h + b.pt + b.pb + b.bt + b.bb)) r.posY then none else r.resume
-          | none => r.resume
-        else none
-      finishContainer c st b isStart pageIsEmpty bs cwc dbd resume r.posY adjL [] false
-        { brk := none, page := none } (!r.lines.isEmpty) st.page
-        (fun g => .para id idx st n g r.lines)
-  | .block id _ kids =>
+    finishPara c st p pageIsEmpty id idx n
+      (lineboxLayout c st p.b n lineH pageIsEmpty p.cur p.bs p.posY lineSkip p.dbd)
+  | .block id st kids =>
+    let p := prepare c st y bs skip cbIsRoot pageIsEmpty adjL
     let skipIdx := match skip with | some (.node i _) => i | _ => 0
     let subSkip : Option Resume := match skip with | some (.node _ sub) => sub | _ => none
-    let s0 : KidsLoop := { newChildren := [], posY := posY, adjL := adjL, cur := cur, curIsL := curIsL,
-                           nextPage := { brk := none, page := none }, skip := subSkip }
-    match layoutKids c st b kids 0 skipIdx bs pageIsEmpty s0 with
-    | .aborted page s =>
-      { frag := none, resume := none, nextPage := { brk := none, page := some page }, adj := .fresh [],
-        collapsingThrough := false, adjL := s.adjL }
-    | .stopped resume s =>
-      let resume := match st.height with
-        | some h => if overflows (b.y + (h + b.pt + b.pb + b.bt + b.bb)) s.posY then none else resume
-        | none => resume
-      finishContainer c st b isStart pageIsEmpty bs cwc dbd resume s.posY s.adjL [] false s.nextPage
-        (!s.newChildren.isEmpty) (let e := fragPageEndLast s.newChildren; if e = "" then st.page else e)
-        (fun g => .block id idx st g s.newChildren)
-    | .finished s =>
-      finishContainer c st b isStart pageIsEmpty bs cwc dbd none s.posY s.adjL s.cur s.curIsL s.nextPage
-        (!s.newChildren.isEmpty) (let e := fragPageEndLast s.newChildren; if e = "" then st.page else e)
-        (fun g => .block id idx st g s.newChildren)
+    finishBlock c st p pageIsEmpty id idx
+      (layoutKids c st kids 0 skipIdx p.bs pageIsEmpty
+        { newChildren := [], posY := p.posY, adjL := p.adjL, cur := p.cur, curIsL := p.curIsL,
+          nextPage := { brk := none, page := none }, skip := subSkip })
 
 /-- The `for index, child in enumerate(box.children[skip:], start=skip)` loop for block children,
 each iteration being `_in_flow_layout`. -/
-def layoutKids (c : Ctx) (st : PStyle) (b : BoxSt) : List PBox → (index : Nat) → (skipIdx : Nat) → (bs : Rat) →
+def layoutKids (c : Ctx) (st : PStyle) : List PBox → (index : Nat) → (skipIdx : Nat) → (bs : Rat) →
     (pageIsEmpty : Bool) → KidsLoop → KidsOutcome
   | [], _, _, _, _, s => .finished s
   | child :: rest, index, skipIdx, bs, pageIsEmpty, s =>
-    if index < skipIdx then layoutKids c st b rest (index + 1) skipIdx bs pageIsEmpty s
+    if index < skipIdx then layoutKids c st rest (index + 1) skipIdx bs pageIsEmpty s
     else
-      -- _in_flow_layout
-      let last := s.newChildren.getLast?
-      let pb : Brk := match last with | some l => breakBetween l child | none => .auto
-      let pageName : Option String := match last with
-        | some l => let before := fragPageEnd l; let after := boxPageStart child
-                    if before ≠ after then some after else none
-        | none => none
-      let forcedHere := match last with
-        | some _ => (match pageName with | some nm => nm ≠ "" | none => false) || forcesPage pb
-        | none => false
-      if forcedHere then
+      let mb := meetBreak s child
+      if mb.2 then
         .stopped (some (.node index none))
-          { s with nextPage := { brk := some pb, page := some (boxPageStart child) } }
+          { s with nextPage := { brk := some mb.1, page := some (boxPageStart child) } }
       else
         let pienc := pageIsEmpty && s.newChildren.isEmpty
         let r := layoutBox c child index s.posY bs s.skip st.isRoot pienc s.cur
-        let s := s.setCur r.adjL s.curIsL
-        -- (new_child, resume_at, next_page, next_adjoining_margins, collapsing_through)
-        let canBreak := !pienc
-        let (frag, resume, nextPage, adjOut, posY, s) :=
-          match r.frag with
-          | none => ((none : Option Frag), r.resume, r.nextPage, (none : Option AdjOut), s.posY, s)
-          | some f =>
-            if r.collapsingThrough then (some f, r.resume, r.nextPage, some r.adj, s.posY, s)
-            else
-              let g := f.geo
-              let newContentPosY := g.contentBoxY + g.h
-              let newPosY := g.borderBoxY + g.borderHeight
-              if canBreak && c.overflowsPage bs newContentPosY then
-                (none, r.resume, r.nextPage, some r.adj, s.posY, s)
-              else if canBreak && c.overflowsPage bs newPosY then
-                let bs' := bs + (g.pb + g.bb)
-                let r2 := layoutBox c child index s.posY bs' s.skip st.isRoot pienc s.cur
-                let s := s.setCur r2.adjL s.curIsL
-                let posY := match r2.frag with
-                  | some f2 => f2.geo.borderBoxY + f2.geo.borderHeight
-                  | none => s.posY
-                (r2.frag, r2.resume, r2.nextPage, some r2.adj, posY, s)
-              else (some f, r.resume, r.nextPage, some r.adj, newPosY, s)
-        -- adjoining_margins = next_adjoining_margins; if new_child: append(margin_bottom)
-        let s := match adjOut with
-          | none => s
-          | some .alias => s
-          | some (.fresh l) => s.setCur l false
-        let s := match adjOut, frag with
-          | some _, some f => s.appendCur f.geo.mb
-          | _, _ => s
-        let s := { s with posY := posY, nextPage := nextPage, skip := none }
-        match frag with
-        | none =>
-          let earlier := if avoidsPage pb then findEarlierList s.newChildren else none
-          match earlier with
-          | some (kept, r') => .stopped (some r') { s with newChildren := kept }
-          | none =>
-            if avoidsPage pb && !pageIsEmpty then .aborted (boxPageStart child) s
-            else if !s.newChildren.isEmpty then .stopped (some (.node index none)) s
-            else .aborted (boxPageStart child) s
-        | some f =>
-          let s := { s with newChildren := s.newChildren ++ [f.withIdx index] }
-          match resume with
-          | some r' => .stopped (some (.node index (some r'))) s
-          | none => layoutKids c st b rest (index + 1) skipIdx bs pageIsEmpty s
+        let s1 := s.setCur r.adjL s.curIsL
+        match firstPass c bs pienc s.posY r with
+        | .keep frag posY =>
+          let s2 := { s1.adoptAdj r.frag.isSome r.adj frag with posY := posY, nextPage := r.nextPage, skip := none }
+          match concludeKid index pageIsEmpty mb.1 child s2 frag r.resume with
+          | (some out, _) => out
+          | (none, s3) => layoutKids c st rest (index + 1) skipIdx bs pageIsEmpty s3
+        | .redo bs' =>
+          let r2 := layoutBox c child index s.posY bs' s.skip st.isRoot pienc s1.cur
+          let s1' := s1.setCur r2.adjL s1.curIsL
+          let posY := match r2.frag with
+            | some f2 => f2.geo.borderBoxY + f2.geo.borderHeight
+            | none => s.posY
+          let s2 := { s1'.adoptAdj true r2.adj r2.frag with posY := posY, nextPage := r2.nextPage, skip := none }
+          match concludeKid index pageIsEmpty mb.1 child s2 r2.frag r2.resume with
+          | (some out, _) => out
+          | (none, s3) => layoutKids c st rest (index + 1) skipIdx bs pageIsEmpty s3
 
 end
+
 
 /-! ### pages -/
 
